@@ -129,6 +129,13 @@ class Run:
                 self.traits[int(t[1])] = set(t[2:])
             elif not self.parse_extra(t):
                 raise ValueError(f'bad scenario line {ln!r}')
+        # classes are numbered in order of declaration, bases and objects' classes are declared ones
+        # (a shrunk scenario that lost a declaration is not a scenario)
+        cids = [d[1] for d in self.decls if d[0] == 'class']
+        if cids != list(range(len(cids))) or \
+                any(b >= d[1] for d in self.decls if d[0] == 'class' for b in d[2]) or \
+                any(d[2] >= len(cids) for d in self.decls if d[0] == 'obj'):
+            raise ValueError('undeclared class')
         self.root = self.make_root(meths)
         self.disp = make_dispatcher()
         self.make_dispatcher = make_dispatcher
